@@ -44,10 +44,11 @@ STAGES = {
         dict(name="A", universe="U2", max_db=3, max_roots=2, triples=True, bulk=[1, 2, 3, 10], cut_rows=3, deviations=1),
     ],
     "thorough": [
-        dict(name="A", universe="U", max_db=3, max_roots=2, triples=True, bulk=[1, 2, 3, 4, 7, 10, 25], cut_rows=4, deviations=1),
-        dict(name="B", universe="U2", max_db=3, max_roots=3, triples=False, bulk=[1, 2, 3], cut_rows=None, deviations=2),
+        dict(name="A", universe="U", max_db=3, max_roots=2, triples=True, bulk=[1, 2, 4, 7, 25], cut_rows=3, deviations=1),
+        dict(name="B", universe="U2", max_db=3, max_roots=2, triples=True, bulk=[1, 2, 3], cut_rows=None, deviations=2),
         dict(name="C", universe="U2", max_db=2, max_roots=2, triples=True, bulk=[1, 2, 3, 10], cut_rows=None, deviations=None),
-        dict(name="D", universe="U", max_db=4, max_roots=3, triples=False, bulk=[1, 2, 5], cut_rows=1, deviations=1),
+        dict(name="D", universe="U", max_db=4, max_roots=2, triples=False, bulk=[1, 2, 5], cut_rows=1, deviations=1),
+        dict(name="E", universe="U2", max_db=3, max_roots=3, triples=False, bulk=[1, 2, 10], cut_rows=2, deviations=1),
     ],
 }
 
